@@ -177,3 +177,45 @@ fn stats_unallocated_zero() {
     check!(a.count() == 0 && a.size() == 0 && a.capacity() == 0 && a.allocated() == 0 && a.remaining() == 0, "C10: unallocated arena reports non-zero any_stats");
     kani::cover!(true, "END: harness ran to completion");
 }
+
+// ------------------------------------------------------------------------------------------------
+// growth rule from a FIRST CHUNK WITH CAPACITY and a large header (stateful: 48-byte header / over-aligned: 64-byte
+// header): try_with_size(112) gives a 112-byte chunk (capacity 64 / 48); it is filled, and a small request creates
+// the next chunk. Because sizes are rounded to a power of two less 16, "twice the capacity" and "twice the size" only
+// differ when the header is larger than half of the rest - which the zero-sized stub never reaches (third-round
+// seeded change C10-r3). Oracles: C10 "each later chunk strictly larger", C12 ">= 2 * previous - 16".
+// ------------------------------------------------------------------------------------------------
+fn growth_body<A, St: BumpAllocatorSettings>(header_size: usize, fill: usize)
+where
+    A: BaseAllocator<St::GuaranteedAllocated> + Default,
+{
+    set_budget(1);
+    let Ok(bump) = Bump::<A, St>::try_with_size(112) else { return };
+    let mut bump = core::mem::ManuallyDrop::new(bump);
+    set_budget(0);
+    check!(bump.stats().count() == 1, "harness: first chunk missing");
+    kani::cover!(bump.stats().size() == 112, "first chunk of 112 bytes");
+    let Ok(_) = bump.allocate(core::alloc::Layout::from_size_align(fill, 1).unwrap()) else { return };
+    let l = core::alloc::Layout::from_size_align(8, 1).unwrap();
+    set_budget(1);
+    let r = bump.allocate(l);
+    set_budget(0);
+    kani::cover!(r.is_ok() && bump.stats().count() == 2, "a small request created the next chunk");
+    assert_stats_coherent(bump.stats(), header_size);
+    assert_any_equals_typed(bump.stats(), bump.any_stats());
+    kani::cover!(true, "END: harness ran to completion");
+}
+
+macro_rules! growth_harness {
+    ($name:ident, $A:ty, $S:ty, $hdr:expr, $fill:expr) => {
+        #[kani::proof]
+        #[kani::unwind(6)]
+        #[kani::stub(std::alloc::handle_alloc_error, crate::stubs::hae_stub)]
+        fn $name() {
+            growth_body::<$A, $S>($hdr, $fill);
+        }
+    };
+}
+growth_harness!(stats_growth_stateful_up1, VAStateful, S<1, true>, 48, 60);
+growth_harness!(stats_growth_stateful_down1, VAStateful, S<1, false>, 48, 60);
+growth_harness!(stats_growth_over_up1, VAOver, S<1, true>, 64, 44);
